@@ -211,6 +211,9 @@ bool File::rename(const String& from, const String& to, bool failIfExists)
 #else
   if(failIfExists)
   {
+    struct stat buf;
+    if(lstat(from, &buf) != 0)
+      return false; // nothing to rename; the placeholder below must not become the source ("./new" and "new")
     int fd = ::open(to, O_CREAT | O_EXCL | O_CLOEXEC, S_IRUSR | S_IWUSR | S_IRGRP | S_IROTH);
     if(fd == -1)
       return false;
